@@ -667,6 +667,12 @@ fn gen_cases(seed: u64, n: u64, f: &mut impl Write) {
         emit(format!("p{seed}-fromid{id:02x}"), vec![format!("fromid {id:x}")]);
     }
     emit(format!("s{seed}-bricks"), vec!["bricksweep".into()]);
+    // sequence lengths of 2^32-1: the reader sizes an allocation by them before reading (C13 probe: alloc-abort)
+    emit(format!("b{seed}-hugecseq"), vec!["bytes 01000000010000006119ffffffff".into()]);
+    emit(format!("b{seed}-hugenseq"), vec!["bytes 01000000010000006117ffffffff".into()]);
+    emit(format!("b{seed}-hugestr"), vec!["bytes 01000000010000006102ffffffff".into()]);
+    emit(format!("b{seed}-hugename"), vec!["bytes 01000000ffffffff6102".into()]);
+    emit(format!("b{seed}-hugecount"), vec!["bytes ffffffff010000006103".into()]);
     // truncation of a blob holding one value of every supported type at every length
     {
         let mut a = Attributes::new();
